@@ -50,6 +50,31 @@ theorem http_error_raises (hash : Nat → Nat) (prior : Option Nat) (ds : List D
     ∀ r ∈ ds.take (nData (download hash (start prior ds ss)).1.log), r ≠ .httpError :=
   Lemmas.http_error_raises hash prior ds ss hret
 
+/-- The property under its own quantifier — a checksum URL whose behaviour is fixed for the scenario and
+that always answers `h`: whenever the call returns normally, whatever the prior file and the data
+script, the file left behind hashes to `h` (no assumption on which request was answered last). -/
+theorem ok_with_fixed_checksum (hash : Nat → Nat) (prior : Option Nat) (ds : List DataResp) (h n : Nat)
+    (hn : 3 ≤ n)
+    (hret : (download hash (start prior ds (List.replicate n (.avail h)))).2 = .skipped ∨
+            (download hash (start prior ds (List.replicate n (.avail h)))).2 = .done) :
+    ∃ b, (download hash (start prior ds (List.replicate n (.avail h)))).1.file = some b ∧ hash b = h :=
+  Lemmas.ok_with_fixed_checksum hash prior ds h n hn hret
+
+/-- Exactly when: with no prior file, a second data request is made if and only if the first
+verification was answered with a checksum the downloaded body does not match (no retry when the
+checksum is unavailable or matches). -/
+theorem retry_iff (hash : Nat → Nat) (b : Nat) (ds : List DataResp) (a : SumResp) (ss : List SumResp) :
+    nData (download hash (start none (.body b :: ds) (a :: ss))).1.log = 2 ↔ ∃ h, a = .avail h ∧ hash b ≠ h :=
+  Lemmas.retry_iff hash b ds a ss
+
+/-- Exactly when the call raises the checksum error, for a checksum URL that always answers `h`: the
+prior file (if any) is invalid and both downloaded bodies fail the checksum. -/
+theorem raises_iff (hash : Nat → Nat) (prior : Option Nat) (ds : List DataResp) (h n : Nat) (hn : 3 ≤ n) :
+    (download hash (start prior ds (List.replicate n (.avail h)))).2 = .mismatch ↔
+      (∀ b, prior = some b → hash b ≠ h) ∧
+      ∃ b1 b2 rest, ds = .body b1 :: .body b2 :: rest ∧ hash b1 ≠ h ∧ hash b2 ≠ h :=
+  Lemmas.raises_iff hash prior ds h n hn
+
 /-! Non-vacuity (hash = identity) -/
 example : (download id (start none [.body 2, .body 1] [.avail 1, .avail 1])).2 = .done := by decide
 example : (download id (start none [.body 2, .body 1] [.avail 1, .avail 1])).1.file = some 1 := by decide
